@@ -130,6 +130,10 @@ def launch_violations(W, trace):
                     if pst == 'component_shutdown' and not d['is_aggregate']:
                         bad.append((c, p, 'non-aggregating component launched although producer %d is shut down' % p, ev))
                     if subject:
+                        # Start = initialise + two scheduler passes: a subject launched by the first pass
+                        # legitimately enables its observer in the second (one pass can never launch both)
+                        if ev[0] == 'Start' and post['comps'][p][2] > 0:
+                            pruns = post['comps'][p][2]
                         if not final and pruns == 0:
                             bad.append((c, p, 'observer launched although its same-stage producer %d was never launched' % p, ev))
                     elif not (final and p in pre['done']):
